@@ -360,6 +360,15 @@ func runProg(c *router.Context, hid int) {
 		_, _ = io.Copy(c.Response, struct{ io.Reader }{bytes.NewReader(body[:p.Size])})
 	case "G":
 		_, _ = io.Copy(c.Response, struct{ io.Reader }{bytes.NewReader(body[:p.Size])})
+	case "L":
+		// a streaming handler flushes first (commits an implied 200), the status it sets afterwards comes too late
+		if f, ok := c.Response.(http.Flusher); ok {
+			f.Flush()
+		} else {
+			c.Response.WriteHeader(200)
+		}
+		c.Response.WriteHeader(p.Status)
+		_, _ = c.Response.Write(body[:p.Size])
 	case "Q":
 	case "O":
 		_, _ = c.Response.Write(body[:p.Size])
@@ -644,7 +653,7 @@ func (l *lineB) facts(f facts) {
 
 func (l *lineB) prog(p Prog, libSize int) {
 	switch p.Mode {
-	case "E", "T", "B", "F":
+	case "E", "T", "B", "F", "L":
 		l.Tok(p.Mode).Nat(p.Status).Nat(p.Size)
 	case "G":
 		l.Tok("G").Nat(p.Size)
@@ -1147,7 +1156,9 @@ func genProg(r *hx.Rand, chain string) Prog {
 			return Prog{Mode: "X", Status: 0, Size: 0, AbortPanic: r.Chance(1, 3)}
 		}
 	}
-	switch r.Intn(10) {
+	switch r.Intn(11) {
+	case 10:
+		return Prog{Mode: "L", Status: st, Size: n}
 	case 8:
 		return Prog{Mode: "F", Status: st, Size: n}
 	case 9:
@@ -1351,6 +1362,12 @@ func witnesses() []Case {
 		// round-4 seeded changes: ReadFrom through the wrapper, long patterns, tracer / recorder shut down mid-request
 		{Kind: "R", C: Cfg{Obs: true}, Q: Req{Method: "GET", Path: "/s/a", Prog: Prog{Mode: "F", Status: 201, Size: 1023}, Class: "main-static"}},
 		{Kind: "R", C: Cfg{Obs: true, Compiled: true}, Q: Req{Method: "GET", Path: "/d/7", Prog: Prog{Mode: "G", Size: 4096}, Class: "main-param"}},
+		// K08h: Flush first, then a status that comes too late (app recorder; single request through the counting recorder)
+		{Kind: "A", C: Cfg{Obs: true}, H: []Req{
+			{Method: "GET", Path: "/s/a", Prog: Prog{Mode: "L", Status: 500, Size: 4}, Class: "main-static"},
+			{Method: "GET", Path: "/d/7", Prog: Prog{Mode: "L", Status: 404, Size: 0}, Class: "main-param"},
+		}},
+		{Kind: "R", C: Cfg{Obs: true}, Q: Req{Method: "GET", Path: "/s/a", Prog: Prog{Mode: "L", Status: 503, Size: 17}, Class: "main-static"}},
 		{Kind: "A", C: Cfg{Obs: true}, H: []Req{
 			{Method: "GET", Path: "/long/" + longSeg, Prog: e, Class: "long-pattern"},
 			{Method: "GET", Path: "/lp/7/" + longSeg, Prog: Prog{Mode: "F", Status: 404, Size: 100}, Class: "long-pattern"},
